@@ -2,7 +2,7 @@
 from .. import traceprop
 
 ID = "C17"
-GEN = ["OnceShapes.lean"]   # function shapes regenerated from the source on every run (tie 4B)
+GEN = ["OnceShapes.lean"]   # regenerated from the source on every run (tie 4B): kernels / call shapes / function shapes
 SHRINK = False
 RULE = ("native executions (GOMAXPROCS in {1,2,8}) of 1..8 racing callers plus 0..3 late callers of Once1/Once2/Once3.Do with distinct functions; the running function is gated "
         "by the harness until a random number of further callers have arrived; events call/fstart/fend/ret stamped by one atomic counter; "
